@@ -113,15 +113,32 @@ func suiteV07(c *vctx) {
 			c.emit("law.C07.expired_or_future_token_rejected "+vxs(plain), vtf(st != 200 || fresh))
 		}
 		itok := vIssuedTok(issued)
+		issuedText := map[string]bool{} // decoded nonce | decoded sealed text of every token this instance sealed
+		for _, is := range issued {
+			issuedText[string(is.nonce)+"|"+string(is.cipher)] = true
+		}
 		present := func(kind, text string) {
 			nowS := time.Now().Unix()
 			st, _, u, adm := f.Check(text)
 			res := "rej"
 			if st == http.StatusOK {
 				res = fmt.Sprintf("ok %s %s", vxs(u), vtf(adm))
+				// unforgeable, stated directly: whatever is accepted consists of two fields that DECODE (as a whole,
+				// with the standard decoder: several spellings of one byte string exist) to the nonce and the
+				// sealed text of one token this instance sealed
+				key := "?"
+				if i := strings.IndexByte(text, ':'); i >= 0 && strings.Count(text, ":") == 1 {
+					dn, e1 := base64.URLEncoding.DecodeString(text[:i])
+					dc, e2 := base64.URLEncoding.DecodeString(text[i+1:])
+					if e1 == nil && e2 == nil {
+						key = string(dn) + "|" + string(dc)
+					}
+				}
+				if !issuedText[key] {
+					c.emit(fmt.Sprintf("law.C07.accepted_only_if_issued kind=%s %s", kind, vxs(text)), "f")
+				}
 			}
 			c.emit(fmt.Sprintf("sess.check %d %d %s %s", lt, nowS, itok, vxs(text)), res)
-			_ = kind
 		}
 		for ti, text := range texts {
 			present("as-issued", text)
@@ -166,6 +183,28 @@ func suiteV07(c *vctx) {
 			present("nonce-len", enc(raw, 13))
 			present("nonce-len", enc(raw, 0))
 			present("nonce-len", ":"+base64.URLEncoding.EncodeToString(ct))
+			// material inserted at the end / start of EITHER field (not only of the whole text): more base64,
+			// another valid token's field, padding, text that is not base64 at all
+			{
+				ntext, cttext := text[:strings.IndexByte(text, ':')], text[strings.IndexByte(text, ':')+1:]
+				otherN := ""
+				if len(texts) > 1 {
+					o := texts[(ti+1)%len(texts)]
+					otherN = o[:strings.IndexByte(o, ':')]
+				}
+				for _, x := range []string{"A", "AA", "AAAA", "AAAAAAAA", "AA==", "=", "====", otherN, ntext, "!!", "%41", " ", "\n", "\r\n", "\x00"} {
+					if x == "" {
+						continue
+					}
+					present("field-ext", ntext+x+":"+cttext)
+					present("field-ext", x+ntext+":"+cttext)
+					present("field-ext", ntext+":"+cttext+x)
+					present("field-ext", ntext+":"+x+cttext)
+				}
+				for extra := 1; extra <= 24; extra += 1 + r.Intn(4) {
+					present("field-ext", base64.URLEncoding.EncodeToString(append(append([]byte(nil), n...), r.Bytes(extra)...))+":"+cttext)
+				}
+			}
 			// another instance / before a restart
 			_, _, other := f2.Generate("alice", true)
 			present("other-instance", other)
